@@ -62,6 +62,7 @@ type report struct {
 	Census     []censusHit `json:"census"`
 	Files      int         `json:"files"`
 	ClockSites int         `json:"clock_sites"` // time.Now/Since/Until/Sleep calls put behind the simulated clock
+	CondSites  int         `json:"cond_sites"`  // sync.Cond Wait/Signal/Broadcast calls routed through the simulator
 	SyncSites  int         `json:"sync_sites"`  // yield points just before / after a statement that calls into sync or sync/atomic
 	RandSites  int         `json:"rand_sites"`  // math/rand package-level calls put behind the simulated source
 }
@@ -167,6 +168,7 @@ func main() {
 func instrumentFile(p *packages.Package, f *ast.File, fn string, pristine bool) {
 	fset := p.Fset
 	info := p.TypesInfo
+	fileSrc, _ := os.ReadFile(fn)
 	var edits []edit
 	add := func(pos token.Pos, text string) {
 		edits = append(edits, edit{fset.Position(pos).Offset, len(edits), text, 0})
@@ -405,6 +407,16 @@ func instrumentFile(p *packages.Package, f *ast.File, fn string, pristine bool) 
 							add(n.End(), fmt.Sprintf(", %d)", id))
 						case fnObj.Pkg().Path() == "reflect" && fnObj.Name() == "MapRange":
 							census(n, "nondeterminism", "reflect.Value.MapRange")
+						case fnObj.Pkg().Path() == "sync" && namedIs(s.Recv(), "sync", "Cond") && (fnObj.Name() == "Wait" || fnObj.Name() == "Signal" || fnObj.Name() == "Broadcast"):
+							// c.Wait() -> verifsim_.CondWait(c): a waiter must let the peer it
+							// waits for run (see the runtime package)
+							recv := "(" + string(fileSrc[fset.Position(sel.X.Pos()).Offset:fset.Position(sel.X.End()).Offset]) + ")"
+							if _, isPtr := info.TypeOf(sel.X).(*types.Pointer); !isPtr {
+								recv = "&" + recv
+							}
+							o, e := fset.Position(n.Pos()).Offset, fset.Position(n.End()).Offset
+							edits = append(edits, edit{o, len(edits), "verifsim_.Cond" + fnObj.Name() + "(" + recv + ")", e - o})
+							rep.CondSites++
 						case fnObj.Pkg().Path() == "sync" && namedIs(s.Recv(), "sync", "Map") && fnObj.Name() == "Range":
 							census(n, "nondeterminism", "sync.Map.Range")
 						case fnObj.Pkg().Path() == "reflect" && (fnObj.Name() == "Pointer" || fnObj.Name() == "UnsafeAddr" || fnObj.Name() == "UnsafePointer"):
@@ -463,9 +475,37 @@ func instrumentFile(p *packages.Package, f *ast.File, fn string, pristine bool) 
 		}
 		return true
 	})
+	// Lock/Unlock used as method VALUES (`return mu.Unlock`, `defer once.Do(mu.Unlock)`):
+	// the bracket accounting of statement-level Lock()/Unlock() cannot see
+	// through them
+	callFuns := map[ast.Expr]bool{}
+	ast.Inspect(f, func(n ast.Node) bool {
+		if call, ok := n.(*ast.CallExpr); ok {
+			callFuns[call.Fun] = true
+		}
+		return true
+	})
+	ast.Inspect(f, func(n ast.Node) bool {
+		if sel, ok := n.(*ast.SelectorExpr); ok && !callFuns[sel] {
+			if sl := info.Selections[sel]; sl != nil && sl.Kind() == types.MethodVal {
+				if fnObj, ok := sl.Obj().(*types.Func); ok && fnObj.Pkg() != nil && fnObj.Pkg().Path() == "sync" {
+					switch fnObj.Name() {
+					case "Lock", "RLock", "Unlock", "RUnlock", "TryLock", "TryRLock":
+						census(sel, "concurrency", "sync."+fnObj.Name()+" used as a method value")
+					}
+				}
+			}
+		}
+		return true
+	})
 	// sync calls not at statement level
 	ast.Inspect(f, func(n ast.Node) bool {
 		if call, ok := n.(*ast.CallExpr); ok && !handledSync[call] {
+			if sel, ok := call.Fun.(*ast.SelectorExpr); ok {
+				if sl := info.Selections[sel]; sl != nil && namedIs(sl.Recv(), "sync", "Cond") {
+					return true // routed through the simulator
+				}
+			}
 			if name, ok := syncMethod(call); ok {
 				switch name {
 				case "Lock", "RLock", "Unlock", "RUnlock", "Do", "Wait", "TryLock", "TryRLock":
